@@ -248,6 +248,13 @@ def normalise_index_loops(fn):
         i = target.id
         etxt = ast.unparse(E)
         roots = {x.id for x in ast.walk(E) if isinstance(x, ast.Name)}
+        # E must be a sequence: a table bound to a dictionary anywhere in the function (E[i] is then a key lookup, and
+        # range(len(E)) counts its keys, not its positions) is left alone
+        for x in ast.walk(fn):
+            if isinstance(x, ast.Assign) and any(ast.unparse(t_) == etxt for t_ in x.targets):
+                v_ = x.value
+                if isinstance(v_, (ast.Dict, ast.DictComp)) or (isinstance(v_, ast.Call) and ast.unparse(v_.func).split('.')[-1] in ('dict', 'defaultdict', 'OrderedDict', 'Counter')):
+                    return None
         hits = []
         for sc in scope_nodes:
             for x in ast.walk(sc):
@@ -951,6 +958,174 @@ def normalise_match(trees):
             ast.fix_missing_locations(tree)
 
 
+def normalise_delete(trees):
+    """del X[a:b]  ->  X[a:b] = []      and      del X[k]  ->  X.pop(k)      (same effect on lists and dicts; one target per
+    statement after splitting).  `del name` / `del obj.attr` are left alone (and leave the fragment)."""
+    class T(ast.NodeTransformer):
+        def visit_Delete(self, node):
+            if not all(isinstance(t, ast.Subscript) for t in node.targets):
+                return node
+            out = []
+            for t in node.targets:
+                if isinstance(t.slice, ast.Slice):
+                    new = ast.Assign(targets=[ast.Subscript(value=t.value, slice=t.slice, ctx=ast.Store())], value=ast.List(elts=[], ctx=ast.Load()))
+                else:
+                    new = ast.Expr(value=ast.Call(func=ast.Attribute(value=t.value, attr='pop', ctx=ast.Load()), args=[t.slice], keywords=[]))
+                ast.copy_location(new, node)
+                out.append(new)
+            return out
+    for tree in trees.values():
+        if any(isinstance(n, ast.Delete) for n in ast.walk(tree)):
+            T().visit(tree)
+            ast.fix_missing_locations(tree)
+
+
+def normalise_counted_while(trees):
+    """i = A ... while [C and] i < B [and C']: BODY; i += 1      ->      [if C and C':] for i in range(A, B): BODY; [if not (C and C'): break]
+    when that is the same loop: i is assigned nowhere else in BODY, BODY has no `continue` of this loop, B is not changed by BODY,
+    the extra conditions are call-free, the loop has no else, and i is not read after the loop."""
+    import copy
+
+    def stores(nodes, name):
+        for n in nodes:
+            for x in ast.walk(n):
+                if isinstance(x, ast.Name) and x.id == name and isinstance(x.ctx, (ast.Store, ast.Del)):
+                    return True
+        return False
+
+    def own_continue(body):
+        todo = list(body)
+        while todo:
+            n = todo.pop()
+            if isinstance(n, ast.Continue):
+                return True
+            if isinstance(n, (ast.For, ast.While, ast.FunctionDef, ast.Lambda, ast.ClassDef)):
+                continue
+            todo.extend(ast.iter_child_nodes(n))
+        return False
+
+    fresh = [0]
+
+    def fill_until(fn, block, k, w):
+        """L = [] ... while len(L) < B: BODY; L.append(v)   ->   for _ in range(B): BODY; L.append(v)"""
+        t = w.test
+        if not (isinstance(t, ast.Compare) and len(t.ops) == 1 and isinstance(t.ops[0], ast.Lt) and isinstance(t.left, ast.Call) and isinstance(t.left.func, ast.Name)
+                and t.left.func.id == 'len' and len(t.left.args) == 1 and isinstance(t.left.args[0], ast.Name) and not t.left.keywords):
+            return False
+        L = t.left.args[0].id
+        B = t.comparators[0]
+        last = w.body[-1]
+        if not (isinstance(last, ast.Expr) and isinstance(last.value, ast.Call) and isinstance(last.value.func, ast.Attribute) and last.value.func.attr == 'append'
+                and isinstance(last.value.func.value, ast.Name) and last.value.func.value.id == L and len(last.value.args) == 1):
+            return False
+        if own_continue(w.body) or stores(w.body, L):
+            return False
+        for n in w.body[:-1]:
+            for x in ast.walk(n):
+                if isinstance(x, ast.Call) and isinstance(x.func, ast.Attribute) and isinstance(x.func.value, ast.Name) and x.func.value.id == L:
+                    return False
+        start = None
+        for prev in reversed(block[:k]):
+            if isinstance(prev, ast.Assign) and len(prev.targets) == 1 and isinstance(prev.targets[0], ast.Name) and prev.targets[0].id == L:
+                start = prev.value
+                break
+            if any(isinstance(x, ast.Name) and x.id == L for x in ast.walk(prev)):
+                break
+        if not (isinstance(start, ast.List) and not start.elts):
+            return False
+        bnames = {x.id for x in ast.walk(B) if isinstance(x, ast.Name)}
+        if L in bnames or any(isinstance(x, ast.Name) and x.id in bnames and isinstance(x.ctx, (ast.Store, ast.Del)) for n in w.body for x in ast.walk(n)):
+            return False
+        fresh[0] += 1
+        loop = ast.For(target=ast.Name(id='_fill_%d' % fresh[0], ctx=ast.Store()), iter=ast.Call(func=ast.Name(id='range', ctx=ast.Load()), args=[B], keywords=[]),
+                       body=list(w.body), orelse=[])
+        for x in ast.walk(loop):
+            if not hasattr(x, 'lineno'):
+                ast.copy_location(x, w)
+        ast.copy_location(loop, w)
+        block[k] = loop
+        return True
+
+    def rewrite(fn, block):
+        for k, w in enumerate(list(block)):
+            if not isinstance(w, ast.While) or w.orelse or not w.body:
+                continue
+            if fill_until(fn, block, k, w):
+                continue
+            conj = list(w.test.values) if isinstance(w.test, ast.BoolOp) and isinstance(w.test.op, ast.And) else [w.test]
+            bound = [c for c in conj if isinstance(c, ast.Compare) and len(c.ops) == 1 and isinstance(c.ops[0], ast.Lt) and isinstance(c.left, ast.Name)]
+            if len(bound) != 1:
+                continue
+            cmp_ = bound[0]
+            i = cmp_.left.id
+            B = cmp_.comparators[0]
+            extra = [c for c in conj if c is not cmp_]
+            if any(isinstance(x, ast.Call) or (isinstance(x, ast.Name) and x.id == i) for c in extra for x in ast.walk(c)):
+                continue
+            last = w.body[-1]
+            inc = (isinstance(last, ast.AugAssign) and isinstance(last.op, ast.Add) and isinstance(last.target, ast.Name) and last.target.id == i
+                   and isinstance(last.value, ast.Constant) and last.value.value == 1) or \
+                  (isinstance(last, ast.Assign) and len(last.targets) == 1 and isinstance(last.targets[0], ast.Name) and last.targets[0].id == i
+                   and ast.unparse(last.value) in ('%s + 1' % i, '1 + %s' % i))
+            if not inc or stores(w.body[:-1], i) or own_continue(w.body[:-1]):
+                continue
+            # the start value: the nearest assignment to i in front of the loop, in the same block, a plain expression without i
+            start = None
+            for prev in reversed(block[:k]):
+                if isinstance(prev, ast.Assign) and len(prev.targets) == 1 and isinstance(prev.targets[0], ast.Name) and prev.targets[0].id == i:
+                    start = prev.value
+                    break
+                if stores([prev], i):
+                    break
+            if start is None or not isinstance(start, ast.Constant) or not isinstance(start.value, int):
+                continue
+            # B unchanged by the body
+            bnames = {x.id for x in ast.walk(B) if isinstance(x, ast.Name)}
+            changed = False
+            for n in w.body:
+                for x in ast.walk(n):
+                    if isinstance(x, ast.Name) and x.id in bnames and isinstance(x.ctx, (ast.Store, ast.Del)):
+                        changed = True
+                    if isinstance(x, ast.Call) and isinstance(x.func, ast.Attribute) and x.func.attr in ('append', 'extend', 'insert', 'pop', 'remove', 'clear') \
+                            and any(isinstance(y, ast.Name) and y.id in bnames for y in ast.walk(x.func.value)):
+                        changed = True
+                    if isinstance(x, (ast.Subscript, ast.Attribute)) and isinstance(x.ctx, (ast.Store, ast.Del)) and any(isinstance(y, ast.Name) and y.id in bnames for y in ast.walk(x.value)) \
+                            and isinstance(x, ast.Subscript) and isinstance(x.slice, ast.Slice):
+                        changed = True
+            if changed:
+                continue
+            # i not read after the loop
+            end = getattr(w, 'end_lineno', w.lineno)
+            if any(isinstance(x, ast.Name) and x.id == i and isinstance(x.ctx, ast.Load) and x.lineno > end for x in ast.walk(fn)):
+                continue
+            body = list(w.body[:-1])
+            if extra:
+                cond = extra[0] if len(extra) == 1 else ast.BoolOp(op=ast.And(), values=[copy.deepcopy(c) for c in extra])
+                body.append(ast.If(test=ast.UnaryOp(op=ast.Not(), operand=copy.deepcopy(cond)), body=[ast.Break()], orelse=[]))
+            rng = ast.Call(func=ast.Name(id='range', ctx=ast.Load()), args=([] if start.value == 0 else [copy.deepcopy(start)]) + [B], keywords=[])
+            loop = ast.For(target=ast.Name(id=i, ctx=ast.Store()), iter=rng, body=body or [ast.Pass()], orelse=[])
+            new = loop
+            if extra:
+                new = ast.If(test=copy.deepcopy(cond), body=[loop], orelse=[])
+            for x in ast.walk(new):
+                if not hasattr(x, 'lineno'):
+                    ast.copy_location(x, w)
+            ast.copy_location(new, w)
+            ast.copy_location(loop, w)
+            block[k] = new
+
+    for tree in trees.values():
+        if not any(isinstance(n, ast.While) for n in ast.walk(tree)):
+            continue
+        for fn in [n for n in ast.walk(tree) if isinstance(n, ast.FunctionDef)]:
+            for n in ast.walk(fn):
+                for fld in ('body', 'orelse', 'finalbody'):
+                    blk = getattr(n, fld, None)
+                    if isinstance(blk, list) and blk and isinstance(blk[0], ast.stmt):
+                        rewrite(fn, blk)
+        ast.fix_missing_locations(tree)
+
+
 def synthesise_dataclass_init(trees):
     """@dataclass class K: a: int; b: int = 0; def __post_init__(self): ...   gets the __init__ the decorator would generate:
     def __init__(self, a, b=0): self.a = a; self.b = b; <body of __post_init__>.  Fields with field(...) / InitVar / ClassVar
@@ -1298,6 +1473,8 @@ class Repo:
             normalise_optional_attributes(self.trees)
             normalise_keyword_calls(self.trees)
             normalise_match(self.trees)
+            normalise_delete(self.trees)
+            normalise_counted_while(self.trees)
         except RecursionError:
             raise AnalysisError('property getters are mutually recursive')
         for rel, tree in self.trees.items():
